@@ -1373,13 +1373,10 @@ private:
           }
           else if (isPlausibleEpochMs(expiryMs))
           {
-            const auto exp = fromEpochMs(expiryMs);
-            if (exp > now)
-            {
-              _kv[key] = std::move(value);
-              _expiry[key] = ExpiryEntry{exp, core::InvalidTimerId};
-            }
-            // else: already expired at load — drop the entry entirely.
+            // Keep it even if already expired: a later 'X' log record may clear or
+            // extend the expiry. dropExpiredAfterReplay() removes what is still expired.
+            _kv[key] = std::move(value);
+            _expiry[key] = ExpiryEntry{fromEpochMs(expiryMs), core::InvalidTimerId};
           }
           // else: implausible (corrupt) expiry — drop the entry, mirroring the
           // 'E' log op's sanity-bound rejection (KTP-11). NOT kept as eternal.
@@ -1395,7 +1392,10 @@ private:
     // Load log with enhanced error handling and corruption detection
     std::ifstream log(_logPath, std::ios::binary);
     if (!log.is_open())
+    {
+      dropExpiredAfterReplay(now);
       return; // No log file yet
+    }
 
     std::streamoff validEnd = 0; // end offset of the last completely read entry
     while (log.peek() != EOF)
@@ -1501,17 +1501,10 @@ private:
         }
         std::vector<std::uint8_t> value(valLen);
         std::memcpy(value.data(), ptr, valLen);
-        const auto exp = fromEpochMs(expiryMs);
-        if (exp > now)
-        {
-          _kv[key] = std::move(value);
-          _expiry[key] = ExpiryEntry{exp, core::InvalidTimerId};
-        }
-        else
-        {
-          _kv.erase(key); // already expired → drop
-          _expiry.erase(key);
-        }
+        // Applied even if already expired: a later 'X' record may clear or extend
+        // it. dropExpiredAfterReplay() removes what is still expired at the end.
+        _kv[key] = std::move(value);
+        _expiry[key] = ExpiryEntry{fromEpochMs(expiryMs), core::InvalidTimerId};
       }
       else if (op == 'X')
       {
@@ -1531,16 +1524,7 @@ private:
         }
         else if (isPlausibleEpochMs(expiryMs))
         {
-          const auto exp = fromEpochMs(expiryMs);
-          if (exp > now)
-          {
-            _expiry[key] = ExpiryEntry{exp, core::InvalidTimerId};
-          }
-          else
-          {
-            _kv.erase(key); // expiry already past → drop the key
-            _expiry.erase(key);
-          }
+          _expiry[key] = ExpiryEntry{fromEpochMs(expiryMs), core::InvalidTimerId};
         }
         // implausible expiry → ignore
       }
@@ -1551,6 +1535,7 @@ private:
       }
     }
     log.close();
+    dropExpiredAfterReplay(now);
 
     // Cut off a torn tail (crash in the middle of an append). The log has no
     // resync marker, so entries appended behind it would be unreadable on the
@@ -1563,6 +1548,24 @@ private:
       if (ec)
       {
         throw KVStoreException("Failed to truncate torn log tail: " + ec.message());
+      }
+    }
+  }
+
+  /// \brief Expiry is decided once, after the whole history has been replayed: a
+  /// record that looks expired may be followed by one that clears or extends it.
+  void dropExpiredAfterReplay(std::chrono::system_clock::time_point now)
+  {
+    for (auto it = _expiry.begin(); it != _expiry.end();)
+    {
+      if (it->second.expiry <= now)
+      {
+        _kv.erase(it->first);
+        it = _expiry.erase(it);
+      }
+      else
+      {
+        ++it;
       }
     }
   }
